@@ -300,7 +300,7 @@ impl <N: NumericOps> ArrayTrigonometric<N> for Array<N> {
     fn unwrap_phase(&self, discont: Option<Array<f64>>, axis: Option<isize>, period: Option<Array<f64>>) -> Result<Self, ArrayError> {
 
         fn parse_parameter<N: Numeric>(array: &Array<N>, parameter: &Array<N>) -> Result<Array<N>, ArrayError> {
-            let self_len = array.len()? - 1;
+            let self_len = array.len()?.saturating_sub(1);
             parameter.len()?.is_one_of(vec![&1, &self_len])?;
             let result =
                 if parameter.len()? == self_len { parameter.clone() }
@@ -308,6 +308,7 @@ impl <N: NumericOps> ArrayTrigonometric<N> for Array<N> {
             Ok(result)
         }
 
+        if let Some(axis) = axis { self.axis_in_bounds(self.normalize_axis(axis))?; }
         let period = period.unwrap_or(Array::single(std::f64::consts::PI * 2.)?);
         let discont = discont.unwrap_or((period.clone() / 2.)?);
         let (mut discont, mut period) = (discont.to_array_num()?, period.to_array_num()?);
